@@ -3,7 +3,7 @@ import ipaddress
 from harness.core import Prop
 from harness.props import socks_common as sc
 
-HOSTS = ['1.2.3.4', '0.0.0.7', '255.255.255.255', '::1', '2001:db8::ff00:42:8329', 'a', 'example.com',
+HOSTS = ['1.2.3.4', '0.0.0.7', '255.255.255.255', '::1', '2001:db8::ff00:42:8329', '::ffff:1.2.3.4', '::ffff:0:0', '::', '64:ff9b::1.2.3.4', 'a', 'example.com',
          'a-b_c.example', 'x' * 63 + '.' + 'y' * 63 + '.' + 'z' * 63 + '.' + 'w' * 58 + '.de', 'localhost.']
 ALPH = 'ab09 ._-é€\U0001F600\x01\x7f'
 
@@ -74,12 +74,18 @@ class C16(Prop):
             yield case
 
     def run_impl(self, case):
+        if case.get('multi'):
+            return self.multi_address_scenario(case)
         return sc.run_socks(case)
 
     def coq_case(self, case, obs):
+        if case.get('multi'):
+            return None
         return sc.coq_case(case, obs)
 
     def oracle(self, case, obs):
+        if case.get('multi'):
+            return self.multi_address_oracle(case, obs)
         try:
             ip = ipaddress.ip_address(case['host'])
         except ValueError:
@@ -122,15 +128,101 @@ class C16(Prop):
             return 'SOCKS5 exchange differs from RFC 1928/1929 (greeting, credentials iff selected, CONNECT)'
         return None
 
+    # ---- every proxy address tried gets a complete exchange of its own (SOCKSProxy._connect_one, real loopback sockets)
+    @staticmethod
+    def multi_address_scenario(case):
+        import asyncio, socket, logging
+        from aiorpcx import socks
+        from aiorpcx.util import NetAddress
+        logging.disable(logging.CRITICAL)
+
+        async def main():
+            loop = asyncio.get_event_loop()
+            loop.set_exception_handler(lambda l, ctx: None)
+            got = [bytearray(), bytearray()]
+
+            async def serve(idx, reader, writer):
+                try:
+                    if case['proto'] == '5':
+                        got[idx] += await reader.readexactly(3)              # greeting 05 01 00
+                        if idx == 0 and case['first'] == 'refuse_method':
+                            writer.write(b'\x05\xff')
+                        else:
+                            writer.write(b'\x05\x00')
+                            got[idx] += await reader.readexactly(10)         # CONNECT to an IPv4 address
+                            writer.write(b'\x05\x05\x00\x01' + bytes(6) if idx == 0 else b'\x05\x00\x00\x01' + bytes(6))
+                    else:
+                        got[idx] += await reader.readexactly(9)              # SOCKS4 request, empty user id
+                        writer.write(b'\x00\x5b' + bytes(6) if idx == 0 else b'\x00\x5a' + bytes(6))
+                    await writer.drain()
+                    if idx == 0 and case['first'] == 'eof':
+                        pass
+                finally:
+                    await asyncio.sleep(0.05)
+                    writer.close()
+            servers = [await asyncio.start_server(lambda r, w, i=i: serve(i, r, w), '127.0.0.1', 0) for i in range(2)]
+            ports = [sv.sockets[0].getsockname()[1] for sv in servers]
+            orig = loop.getaddrinfo
+
+            async def fake_getaddrinfo(host, port, **kw):
+                return [(socket.AF_INET, socket.SOCK_STREAM, 6, '', ('127.0.0.1', p)) for p in ports]
+            loop.getaddrinfo = fake_getaddrinfo
+            try:
+                P = {'4': socks.SOCKS4, '5': socks.SOCKS5}[case['proto']]
+                proxy = socks.SOCKSProxy(NetAddress('proxy.example', 1080), P, None)
+                try:
+                    res = await asyncio.wait_for(proxy._connect_one(NetAddress('1.2.3.4', 80)), 5)
+                    out = 'socket' if isinstance(res, socket.socket) else type(res).__name__
+                    if isinstance(res, socket.socket):
+                        res.close()
+                except asyncio.TimeoutError:
+                    out = 'hang'
+            finally:
+                loop.getaddrinfo = orig
+                for sv in servers:
+                    sv.close()
+            return {'out': out, 'first': list(got[0]), 'second': list(got[1])}
+        return asyncio.run(main())
+
+    @staticmethod
+    def multi_address_oracle(case, obs):
+        if obs['out'] != 'socket':
+            return f"the second proxy address would have granted the request, but the connection attempt ended with {obs['out']}"
+        if obs['second'][:len(obs['first'])] != obs['first'] or not obs['second']:
+            return 'the exchange with the second proxy address does not start like the one with the first (greeting / request bytes missing)'
+        return None
+
+    def extra_checks(self, ctx):
+        from harness.core import Failure
+        out = []
+        n = 0
+        for proto in ('4', '5'):
+            for first in ('refuse', 'refuse_method', 'eof'):
+                if proto == '4' and first == 'refuse_method':
+                    continue
+                case = {'multi': True, 'proto': proto, 'first': first}
+                obs = self.multi_address_scenario(case)
+                n += 1
+                ctx['extra_evals'] += 1
+                cl = self.multi_address_oracle(case, obs)
+                if cl:
+                    out.append(Failure(case, obs, cl))
+        ctx['notes'].append(f'proxy with two addresses, the first refusing: {n} real-socket scenarios')
+        return out[:3]
+
     def classify(self, case, obs, clause):
         if 'user id containing NUL' in clause:
             return 'F16'
         return None
 
     def nontrivial(self, case, obs):
+        if case.get('multi'):
+            return True
         return obs.get('construct') == 'ok' and bool(obs.get('sent'))
 
     def histogram(self, case, obs):
+        if case.get('multi'):
+            return ['multi_address']
         return ['proto=' + case['proto'], 'construct=' + obs['construct'],
                 'auth' if case.get('user') is not None else 'noauth', 'res=' + str(obs.get('res'))]
 
